@@ -101,4 +101,36 @@ theorem serde_roundtrip (prof : Profile) (d : Dec) (hd : Dom d) :
   rw [kernel_string_from_spec prof d hd, Kernels.bind_ok', Kernels.decimal_try_from_string_eq]
   exact roundtrip prof d hd
 
+/-! ### algebraic laws -/
+
+/-- canonicalisation: the text determines the representation — on the domain `Spec.render` is injective in the pair
+    (coefficient, number of fractional digits), because the reference parser reads the pair back (`render_parses_back`) -/
+theorem render_injective (a : Int) (p : Nat) (b : Int) (q : Nat) (ha : I128_MIN < a ∧ a ≤ I128_MAX) (hp : p ≤ 18)
+    (hb : I128_MIN < b ∧ b ≤ I128_MAX) (hq : q ≤ 18) (h : Spec.render a p = Spec.render b q) : a = b ∧ p = q := by
+  have h1 := (render_parses_back a p ha hp).1
+  have h2 := (render_parses_back b q hb hq).1
+  rw [h, h2] at h1
+  injection h1 with e1 e2
+  exact ⟨e1.symm, e2.symm⟩
+
+/-- the same for Decimals: two Decimals of the domain with the same canonical text are identical (coefficient and digit count) … -/
+theorem render_injective_dec (x y : Dec) (hx : Dom x) (hy : Dom y)
+    (h : Spec.render x.coeff x.nfrac = Spec.render y.coeff y.nfrac) : x = y := by
+  obtain ⟨e1, e2⟩ := render_injective x.coeff x.nfrac y.coeff y.nfrac ⟨hx.1, hx.2.1⟩ hx.2.2 ⟨hy.1, hy.2.1⟩ hy.2.2 h
+  cases x; cases y; simp only at e1 e2; rw [e1, e2]
+
+/-- … hence `to_string` / `String::from` are injective on the domain, in every profile: different (coefficient, digit count)
+    pairs — also two representations of the same value, such as `1.0` and `1.00` — give different texts -/
+theorem to_string_injective (prof : Profile) (x y : Dec) (hx : Dom x) (hy : Dom y)
+    (h : toStringDec prof x = toStringDec prof y) : x = y := by
+  rw [string_from_spec prof x hx, string_from_spec prof y hy] at h
+  injection h with h
+  exact render_injective_dec x y hx hy h
+
+theorem to_string_ne_of_ne (prof : Profile) (x y : Dec) (hx : Dom x) (hy : Dom y) (h : x ≠ y) :
+    toStringDec prof x ≠ toStringDec prof y := fun e => h (to_string_injective prof x y hx hy e)
+
+example : toStringDec Profile.dev ⟨10, 1⟩ = .ok [49, 46, 48] ∧ toStringDec Profile.dev ⟨100, 2⟩ = .ok [49, 46, 48, 48] ∧
+    toStringDec Profile.dev ⟨1, 0⟩ = .ok [49] ∧ Spec.render (-5) 3 ≠ Spec.render (-50) 4 ∧ Spec.render 0 0 ≠ Spec.render 0 1 := by decide
+
 end Fpdec.Props.C07
